@@ -232,6 +232,22 @@ def readonly_scenarios(tier="quick"):
                      "dd2.in": "ninja_dyndep_version = 1\nbuild out2 | out2.imp: dyndep\n"}
         T.append(scenario("c19/" + name, "c19", variants, files=files, ops=ops + tools, init=[],
                           depth=4 if tier == "quick" else 5, tags=["readonly"], builddir="bd" if name.startswith("builddir") else ""))
+    # compdb -x (response file content spliced into the command): the response file's name at every small offset of the
+    # command line, bare and behind '@', '-f ' and '--option-file='
+    stmts = []
+    for k, pre in enumerate((["x%d.rsp"], ["p=", "x%d.rsp"], ["p=61", "x%d.rsp"], ["p=6162", "x%d.rsp"], ["p=616263", "x%d.rsp"],
+                             ["p=61626364", "x%d.rsp"], ["@x%d.rsp"], ["-f", "x%d.rsp"], ["--option-file=x%d.rsp"], ["p=61", "-f", "x%d.rsp"])):
+        st = Stmt("lib%d" % k, ex=["a.o", "b.o"], rsp=("x%d.rsp" % k, "$in_newline"))
+        st.cmd_prefix = [w % k if "%d" in w else w for w in pre]
+        stmts.append(st)
+    xv = Variant("v0", stmts)
+    xops = []
+    for args in (["-t", "compdb", "-x"], ["-t", "compdb"], ["-t", "compdb-targets", "-x", "lib4"], ["-t", "compdb-targets", "-x", "lib0", "lib9"]):
+        t = tool_op("compdb", args)
+        t["tool_kind"] = "compdb"
+        t["no_expand"] = True
+        xops.append(t)
+    T.append(scenario("c19/compdb_rspfile_offsets", "c19", [xv], ops=xops, init=[], depth=1, tags=["compdb"]))
     # compdb with every byte a manifest can carry in a command / description / path
     stmts = []
     for b in range(1, 256):
